@@ -28,5 +28,11 @@ for f in sorted(os.listdir(os.path.join(VERIF, "harmless"))):
     finally:
         subprocess.run(["git", "-C", "/repo", "worktree", "remove", "--force", wt])
     print(rows[-1], flush=True)
-json.dump(rows, open(os.path.join(VERIF, "tools", "harmless_last.json"), "w"), indent=1)
+out = os.path.join(VERIF, "tools", "harmless_last.json")
+try:
+    merged = dict(json.load(open(out)))
+except Exception:  # noqa: BLE001
+    merged = {}
+merged.update(dict(rows))
+json.dump(sorted(merged.items()), open(out, "w"), indent=1)
 print("ALARMS:", [r for r in rows if r[1] != "quiet"])
